@@ -34,23 +34,23 @@ func nodePool() *nodebridge.Pool {
 }
 
 type jsAnalysis struct {
-	Free         []string
-	TopLexical   []string
-	TopVar       []string
-	Props        []string
-	Labels       []string
-	Imexp        []string
-	Idents       []string
-	WithIdents   []string
-	Imports      map[string]interface{}
-	Scopes       int
-	Bindings     int
-	MaxScope     int
-	MaxDepth     int
-	UsesEval     bool
-	UsesWith     bool
-	Kind         string
-	FreeCounts   map[string]float64
+	Free       []string
+	TopLexical []string
+	TopVar     []string
+	Props      []string
+	Labels     []string
+	Imexp      []string
+	Idents     []string
+	WithIdents []string
+	Imports    map[string]interface{}
+	Scopes     int
+	Bindings   int
+	MaxScope   int
+	MaxDepth   int
+	UsesEval   bool
+	UsesWith   bool
+	Kind       string
+	FreeCounts map[string]float64
 }
 
 func strList(v interface{}) []string {
